@@ -474,7 +474,7 @@ def pacing_models(tier, d):
     runs, files = [], []
     jobs = []
     for name, pq in PACINGS.items():
-        jobs.append((name, pq, 6 if tier == "quick" else 7, (16, 48) if tier == "quick" else (16, 48, -16)))
+        jobs.append((name, pq, 6 if tier == "quick" else 7, (16, 48) if tier == "quick" else (16, 48, 160)))   # (negative adjustments: random driver; a cfg file cannot hold a negative number)
 
     def run(job):
         name, pq, k, adj = job
